@@ -122,6 +122,16 @@ func (e *c19env) run(id int, defs []handlerDef, contexts []map[string]any, args 
 	sb.WriteString("#!/bin/bash\nsource " + e.lib + "\n")
 	sb.WriteString("function __config__() { echo 'configVersion: v1'; }\n")
 	for _, d := range defs {
+		if d.status == -3 {
+			// a handler that leaves with `exit 0`: it succeeded, the run goes on with the next context
+			sb.WriteString(fmt.Sprintf("function %s() { echo \"%s ${BINDING_CONTEXT_CURRENT_INDEX}\" >> %s; exit 0; }\n", d.name, d.name, trace))
+			continue
+		}
+		if d.status == -4 {
+			// a handler that switches strict mode off for itself: that is its own business
+			sb.WriteString(fmt.Sprintf("function %s() { set +e; echo \"%s ${BINDING_CONTEXT_CURRENT_INDEX}\" >> %s; false; return 0; }\n", d.name, d.name, trace))
+			continue
+		}
 		if d.status == -2 {
 			// a handler that reads its standard input to the end (kubectl apply -f -, cat, read ...)
 			sb.WriteString(fmt.Sprintf("function %s() { echo \"%s ${BINDING_CONTEXT_CURRENT_INDEX}\" >> %s; cat > /dev/null; return 0; }\n", d.name, d.name, trace))
@@ -176,7 +186,7 @@ func expected(cases []ctxCase) (trace []string, ok bool) {
 			if st, def := c.defined[h]; def {
 				trace = append(trace, fmt.Sprintf("%s %d", h, i))
 				found = true
-				if st != 0 && st != -2 {
+				if st != 0 && st != -2 && st != -3 && st != -4 {
 					return trace, false
 				}
 				break
@@ -322,7 +332,7 @@ func TestVerifC19(t *testing.T) {
 						idx = append(idx, i3)
 					}
 					for bad := -1; bad < len(idx); bad++ {
-						for _, how := range []string{"fail", "missing", "strict", "stdin"} {
+						for _, how := range []string{"fail", "missing", "strict", "stdin", "exit0", "set+e-then-strict"} {
 							if bad < 0 && how != "fail" {
 								continue
 							}
@@ -343,12 +353,20 @@ func TestVerifC19(t *testing.T) {
 								if how == "stdin" {
 									badStatus = -2 // not a failure: the handler at this position reads its stdin
 								}
+								if how == "exit0" {
+									badStatus = -3 // not a failure: the handler at this position leaves with exit 0
+								}
+								if how == "set+e-then-strict" {
+									badStatus = -4 // not a failure; the NEXT position then fails in strict mode (below)
+								}
 								def := map[string]int{}
 								if definable(h) {
 									if pos == bad && how == "missing" {
 										// nothing defined for this context
 									} else if pos == bad {
 										def[h] = badStatus
+									} else if how == "set+e-then-strict" && pos == bad+1 {
+										def[h] = -1 // the next context's handler fails in strict mode: the run stops there
 									} else {
 										def[h] = 0
 									}
@@ -382,6 +400,16 @@ func TestVerifC19(t *testing.T) {
 				return
 			}
 		}
+	}
+	// long arrays: every context of a run with 9, 10, 12 and 25 contexts is dispatched, in order
+	for _, n := range []int{9, 10, 12, 25} {
+		var cases []ctxCase
+		for i := 0; i < n; i++ {
+			sh := shs[[]int{6, 2, 1}[i%3]]
+			c := sh.cand("pods")
+			cases = append(cases, ctxCase{sh, "pods", map[string]int{c[len(c)-1]: 0}})
+		}
+		eval(fmt.Sprintf("long|%d", n), cases)
 	}
 }
 
